@@ -32,7 +32,7 @@ impl Monitor for C11 {
 		"C11"
 	}
 	fn rule(&self) -> String {
-		"C01's well-formed replay space; each file is followed by random trailing garbage after its closing brace (which must NOT be hashed) and read with compute_hash through the instrumented source under fragmentation schedules {whole, 1-byte, fixed 2/3/7/64/4096 and two drawn from {15,16,127..129,255..257,511,512,1000,1024,8191..8193,65536}, random 1..5, random 1..300, every two-piece split (every 3rd file <= 3 KB in quick; every 2nd file <= 12 KB in thorough; 64 random splits otherwise)} x skip-frames {off, on (finished files only)}. Oracle: hash == 'xxh3:' + 16 lowercase hex digits of the one-shot xxh3_64 over exactly the bytes the counting source delivered, which must equal the file through its closing brace; identical across schedules and skip on/off; None when hashing is not requested; unchanged by a .slpp round trip. One evaluation = one read. distinct = workload classes x schedule.".into()
+		"C01's well-formed replay space (a sixth of the generated files additionally carry one unknown event with a 16-64 KiB payload, or junk after Game End inside the raw element); each file is followed by random trailing garbage after its closing brace (which must NOT be hashed) and read with compute_hash through the instrumented source under fragmentation schedules {whole, 1-byte, fixed 2/3/7/64/4096 and two drawn from {15,16,127..129,255..257,511,512,1000,1024,8191..8193,65536}, random 1..5, random 1..300, every two-piece split (every 3rd file <= 3 KB in quick; every 2nd file <= 12 KB in thorough; 64 random splits otherwise)} x skip-frames {off, on (finished files only)}. Oracle: hash == 'xxh3:' + 16 lowercase hex digits of the one-shot xxh3_64 over exactly the bytes the counting source delivered, which must equal the file through its closing brace; identical across schedules and skip on/off; None when hashing is not requested; unchanged by a .slpp round trip. One evaluation = one read. distinct = workload classes x schedule.".into()
 	}
 	fn assumptions(&self) -> Vec<String> {
 		vec!["the XXH3-64 digest function (xxhash-rust one-shot API) is trusted; peppi uses the streaming API".into()]
@@ -46,6 +46,47 @@ impl Monitor for C11 {
 	fn run(&self, ctx: &Ctx, idx: usize) -> CaseOut {
 		let mut out = CaseOut::default();
 		let Some((desc, bytes, truth)) = case_input(ctx.tier.pick(&self.quick, &self.thorough), &self.fixtures, ctx.seed, idx, &mut out) else { return out };
+		// a sixth of the generated files are accepted-but-irregular: one large unknown event (a
+		// single payload of 16 KiB .. 64 KiB) or junk after Game End inside the raw element; the hash
+		// must still be the digest of exactly the bytes consumed
+		let (bytes, truth) = if idx >= self.fixtures.len() && idx % 6 == 2 {
+			let mut r2 = crate::rng::Rng::derive(ctx.seed, 0xC11B ^ idx as u64);
+			let mut p = crate::mutate::split(&bytes, &truth);
+			let mut b2 = None;
+			if idx % 12 == 2 {
+				let code = 0x42u8;
+				if !p.table.iter().any(|(c, _)| *c == code) {
+					let sz = *r2.pick(&[16383usize, 16384, 16385, 40000, 65535]);
+					p.table.push((code, sz as u16));
+					let first_end = p.events.iter().position(|(c, _)| *c == 0x39).unwrap_or(p.events.len());
+					let j = r2.range(1, first_end.max(1));
+					p.events.insert(j, (code, r2.bytes(sz)));
+					b2 = Some(crate::mutate::assemble(&p, true));
+					out.class("with-large-unknown-event".to_string());
+				}
+			} else if p.events.iter().any(|(c, _)| *c == 0x39) {
+				let n = *r2.pick(&[1usize, 3, 16, 700]);
+				let mut y = crate::mutate::assemble(&p, true);
+				let raw_end = y.len() - p.tail.len();
+				let mut junk = r2.bytes(n);
+				if n == 1 + crate::spec::end_size(truth.v()) {
+					junk[0] = 0xEE;
+				}
+				for (k, b) in junk.iter().enumerate() {
+					y.insert(raw_end + k, *b);
+				}
+				let declared = (raw_end - 15 + n) as u32;
+				y[11..15].copy_from_slice(&declared.to_be_bytes());
+				b2 = Some(y);
+				out.class("with-junk-after-game-end".to_string());
+			}
+			match b2.and_then(|b| crate::model::parse(&b).ok().map(|m| (b, m))) {
+				Some(x) => x,
+				None => (bytes, truth),
+			}
+		} else {
+			(bytes, truth)
+		};
 		let base: Vec<String> = out.classes.iter().take(2).cloned().collect();
 		let mut rng = crate::rng::Rng::derive(ctx.seed, 0xC11 ^ idx as u64);
 		let mut with_tail = bytes.clone();
@@ -53,7 +94,8 @@ impl Monitor for C11 {
 		with_tail.extend_from_slice(&rng.bytes(ntail));
 		let data = Arc::new(with_tail);
 		let want = want_hash(&bytes[..truth.consumed]);
-		let finished = !truth.ends.is_empty();
+		// skip-frames presupposes that Game End is the last thing in the raw element
+		let finished = !truth.ends.is_empty() && truth.junk_after_end == 0;
 		let big = bytes.len() > 100_000;
 		let mut policies = vec![Policy::Whole, Policy::Fixed(1), Policy::Fixed(2), Policy::Fixed(3), Policy::Fixed(7), Policy::Fixed(64), Policy::Fixed(4096), Policy::Random(5, rng.next()), Policy::Random(300, rng.next()), Policy::Fixed(*rng.pick(&[15usize, 16, 255, 256, 257, 511, 512, 1000, 8191, 8192, 8193])), Policy::Fixed(*rng.pick(&[127usize, 128, 129, 256, 1024, 65536]))];
 		if big {
@@ -75,7 +117,8 @@ impl Monitor for C11 {
 					continue;
 				}
 				out.evals += 1;
-				let src = Src::new(data.clone(), pol.clone());
+				// every 4th case reads from a stream that is not at offset 0 (junk prefix before the file)
+				let src = if idx % 4 == 1 { Src::new(data.clone(), pol.clone()).with_prefix(1 + idx % 513) } else { Src::new(data.clone(), pol.clone()) };
 				let stats = src.stats();
 				let r = common::slp_read_src(src, skip, true);
 				for c in &base {
